@@ -405,6 +405,8 @@ where
             XRef::Invalid => panic!()
         };
         let primitive = obj.to_primitive(self)?;
+        // typed loads of the old version may be cached
+        self.cache.clear();
         match self.changes.entry(old.id) {
             Entry::Vacant(e) => {
                 e.insert((primitive, r.gen));
